@@ -20,6 +20,7 @@ META = {
         "exclude_list=self._exclude, include_list=self._include and fed the packets through the same FileTransport path."
     ),
 }
+META["explanation"] += ' C16.R1 is read off the complete decision table of wanted_msg (predeval.py).'
 
 G = "ramses_rf.gateway"
 
